@@ -51,6 +51,14 @@ SPECS = [
          stores=["self._data"], stmts=(0, 5), result=["self._data"],
          note="cut: the whole body, the result is the new `self._data`; `_write_ndef_data` is a parameter (its value "
               "is ignored), `self.capacity` (a property returning `_capacity`) is bound"),
+    Spec(GROUP, "tb_ndef_records_get", F, N + "records", [], binds=[("self.octets", "octets", BYTES)], expr="self.octets",
+         note="partial cut (not `whole`): the argument of `message_decoder(.., errors='relax')`: the records are decoded "
+              "from the `octets` property (ndeflib is not translated)"),
+    Spec(GROUP, "tb_ndef_records_set", F, N + "records@setter", [("value", INT)],
+         binds=[("b''.join(message_encoder(value))", "encoded", BYTES)], stores=["self.octets"], stmts=[0],
+         result=["self.octets"],
+         note="cut: the encoded message (ndeflib, a parameter) is ASSIGNED TO THE `octets` PROPERTY, i.e. written through "
+              "the checked setter `tb_ndef_octets_set`, not stored into `_data`"),
     # ---------------------------------------------------------------- Tag
     Spec(GROUP, "tb_tag_ndef", F, "Tag.ndef", [],
          binds=[("self._ndef", "cached", OPT(INT)), ("ndef.has_changed", "changed", BOOL)],
@@ -257,7 +265,7 @@ BRIDGE = {
         "ndef_length_bridge", "ndef_getters_bridge", "ndef_has_changed_bridge", "ndef_has_changed_ref",
         "ndef_has_changed_fresh", "ndef_octets_set_bridge", "gen_setter_rejects_before_command",
         "gen_setter_always_writes", "setOctets_tlv_bridge", "setOctets_tlv_no_command", "setOctets_t3_bridge",
-        "setOctets_t4_bridge",
+        "setOctets_t4_bridge", "ndef_records_bridge",
         # Tag: cache and wrappers
         "tag_ndef_bridge", "tag_ndef_ref", "tag_ndef_cached", "tag_is_present_bridge", "tag_format_bridge",
         "tag_protect_bridge", "tag_authenticate_bridge", "tag_wrappers_cstep", "gen_cache_dropped_after_format",
@@ -388,5 +396,7 @@ MUTATIONS = [
     ("tb_t2_is_present_val", "accepts any non-empty answer", "bool(data and len(data) == 16)", "bool(data and len(data) >= 1)"),
     ("tb_felica_is_present", "mode range", "in (0, 1, 2, 3)", "in (0, 1, 2)"),
     ("tb_t4_format_cond", "NEUTRAL: De Morgan", "if not self.ndef or not self.ndef.is_writeable:", "if not (self.ndef and self.ndef.is_writeable):"),
+    ("tb_ndef_records_set", "records setter stores the data without the checked write", "self.octets = b''.join(message_encoder(value))",
+     "self._data = b''.join(message_encoder(value))"),
     ("tb_tce_init", "errno not stored", "self._errno = errno", "self._errno = 0"),
 ]
